@@ -300,8 +300,15 @@ def C08(infos: List[EnumInfo], ctx: dict):
             rows += 1
             if cnt != n_en:
                 out.append(Violation("C08", "COUNT equals the number of enabled variants", "C08:count:%s" % pc, "COUNT = %d, enabled = %d" % (cnt, n_en), where(info, "EnumCount", {"placement": pc})))
-            if it is not None and len(it.entries) != cnt:
-                out.append(Violation("C08", "COUNT equals iter().count()", "C08:count-vs-iter:%s" % pc, "COUNT = %d, iterator table has %d entries" % (cnt, len(it.entries)), where(info, "EnumIter", {"placement": pc})))
+            if it is not None:
+                keys = sorted(k for k, _ in it.entries)
+                # iter() walks indices 0, 1, 2.. and stops at the first index without an entry
+                reach = 0
+                while reach in keys:
+                    reach += 1
+                if reach != cnt:
+                    why = "index table has a hole at %d" % reach if len(keys) > reach else "iterator table has %d entries" % len(keys)
+                    out.append(Violation("C08", "COUNT equals iter().count()", "C08:count-vs-iter:%s" % pc, "COUNT = %d but iter() yields %d items (%s)" % (cnt, reach, why), where(info, "EnumIter", {"placement": pc, "keys": keys})))
         if names is not None:
             rows += 1
             if len(names) != n_all:
